@@ -1,7 +1,11 @@
 import TbbVerif.Core.Proto
+import TbbVerif.Model.C18
 
 open TbbVerif
 
-def drivers : List (String × Proto.Driver) := []
+def drivers : List (String × Proto.Driver) := [
+  ("c18", C18.driver),
+  ("c18ledger", C18.driverLedger)
+]
 
 def main (args : List String) : IO UInt32 := Proto.mainOf drivers args
